@@ -116,6 +116,7 @@ class World:
         self.case, self.box, self.ctx = case, box, ctx
         self.specs = case["filesets"]
         self.family = case["family"]
+        self.has_nc = any(s["kind"] == "nc" for s in self.specs)
         self.tmp = box.mkdir("tmp")
         self.scratch = box.mkdir("scratch")
         self.roots = [box.mkdir("fs%d" % k) for k in range(len(self.specs))]
@@ -142,7 +143,7 @@ class World:
             kwargs["post_reader"] = M.POSTS[spec["post"]]
         if spec["worker_type"]:
             kwargs["worker_type"] = spec["worker_type"]
-        if spec["kind"] == "nc":
+        if self.has_nc:
             kwargs["max_threads"] = 1
         if spec["kind"] == "user":
             reader, writer = M.USER_VARIANTS[spec["variant"]]
@@ -362,7 +363,8 @@ class World:
             kwargs["worker_type"] = wt
         eff = wt or self.specs[i]["worker_type"] or "process"
         self.ctx.label("worker-" + eff)
-        if self.specs[i]["kind"] == "nc" and eff == "thread":
+        if self.has_nc and eff == "thread":
+            # the netCDF4 library is not thread safe
             kwargs["max_workers"] = 1
         return kwargs
 
@@ -856,15 +858,15 @@ def check_single(case, ctx):
 def suites(tier):
     return [
         Suite("bytes", check_history, strategy=H.histories("bytes"),
-              examples={"quick": 16, "thorough": 160}),
+              examples={"quick": 40, "thorough": 400}),
         Suite("pickle", check_history, strategy=H.histories("pickle"),
-              examples={"quick": 5, "thorough": 50}),
-        Suite("csv", check_history, strategy=H.histories("csv"),
               examples={"quick": 10, "thorough": 100}),
+        Suite("csv", check_history, strategy=H.histories("csv"),
+              examples={"quick": 30, "thorough": 300}),
         Suite("netcdf", check_history, strategy=H.histories("nc", 10),
-              examples={"quick": 8, "thorough": 80}),
+              examples={"quick": 24, "thorough": 240}),
         Suite("mixed", check_history, strategy=H.histories("mixed", 8),
-              examples={"quick": 4, "thorough": 40}),
+              examples={"quick": 10, "thorough": 100}),
         Suite("single-file", check_single, strategy=H.single_cases(),
-              examples={"quick": 8, "thorough": 80}),
+              examples={"quick": 16, "thorough": 160}),
     ]
